@@ -7,7 +7,16 @@ V = os.path.dirname(os.path.dirname(os.path.abspath(__file__)))
 
 def mutants_for(prop):
     br = sorted(glob.glob(os.path.join(V, 'mutants', 'break', prop + '-*.diff')))
-    bn = sorted(glob.glob(os.path.join(V, 'mutants', 'benign', '*.diff')))
+    allbn = sorted(glob.glob(os.path.join(V, 'mutants', 'benign', '*.diff')))
+    # the thorough tier of one property runs the benign refactors written for it plus a fixed 1-in-8 slice of the
+    # others (tools/selftest.py runs every benign patch against every property)
+    try:
+        k = int(prop[1:]) % 8
+    except ValueError:
+        k = 0
+    named = [p for p in allbn if prop in os.path.basename(p)]
+    rest = [p for p in allbn if p not in named]
+    bn = named + [p for i, p in enumerate(rest) if i % 8 == k]
     return br, bn
 
 
